@@ -1,4 +1,6 @@
 """Spec machines for C05 (element-wise operators = list semantics) - see specs/__init__.py."""
+from reactivex.internal.exceptions import ArgumentOutOfRangeException
+from reactivex.notification import OnCompleted, OnError, OnNext
 
 
 class take:
@@ -130,4 +132,397 @@ class map:
                 out.append(mapper(x))
             except Exception as e:
                 return out, ("error", e)
+        return out, t
+
+
+class filter_indexed:
+    def init(s):
+        s.failed = False
+        s.i = 0
+
+    def done(s):
+        return s.failed
+
+    def on_next(s, out, x):
+        keep = True
+        if s.predicate_indexed:
+            try:
+                keep = s.predicate_indexed(x, s.i)
+            except Exception as e:
+                s.failed = True
+                out.on_error(e)
+                return
+            s.i += 1
+        if keep:
+            out.on_next(x)
+
+    @staticmethod
+    def ref(h, t, predicate_indexed):
+        if predicate_indexed is None:
+            return list(h), t
+        out = []
+        for i, x in enumerate(h):
+            try:
+                if predicate_indexed(x, i):
+                    out.append(x)
+            except Exception as e:
+                return out, ("error", e)
+        return out, t
+
+
+class take_while:
+    """itertools.takewhile (plus the failing element when inclusive), completing at the first failing element"""
+
+    def init(s):
+        s.stopped = False
+
+    def done(s):
+        return s.stopped
+
+    def on_next(s, out, x):
+        try:
+            ok = s.predicate(x)
+        except Exception as e:
+            s.stopped = True
+            out.on_error(e)
+            return
+        if ok:
+            out.on_next(x)
+        else:
+            s.stopped = True
+            if s.inclusive:
+                out.on_next(x)
+            out.on_completed()
+
+    @staticmethod
+    def ref(h, t, predicate, inclusive):
+        out = []
+        for x in h:
+            try:
+                ok = predicate(x)
+            except Exception as e:
+                return out, ("error", e)
+            if not ok:
+                if inclusive:
+                    out.append(x)
+                return out, "completed"
+            out.append(x)
+        return out, t
+
+
+class take_while_indexed:
+    def init(s):
+        s.stopped = False
+        s.i = 0
+
+    def done(s):
+        return s.stopped
+
+    def on_next(s, out, x):
+        try:
+            ok = s.predicate(x, s.i)
+        except Exception as e:
+            s.stopped = True
+            out.on_error(e)
+            return
+        s.i += 1
+        if ok:
+            out.on_next(x)
+        else:
+            s.stopped = True
+            if s.inclusive:
+                out.on_next(x)
+            out.on_completed()
+
+    @staticmethod
+    def ref(h, t, predicate, inclusive):
+        out = []
+        for i, x in enumerate(h):
+            try:
+                ok = predicate(x, i)
+            except Exception as e:
+                return out, ("error", e)
+            if not ok:
+                if inclusive:
+                    out.append(x)
+                return out, "completed"
+            out.append(x)
+        return out, t
+
+
+class skip_while:
+    """itertools.dropwhile"""
+
+    def init(s):
+        s.running = False
+        s.failed = False
+
+    def done(s):
+        return s.failed
+
+    def on_next(s, out, x):
+        if not s.running:
+            try:
+                s.running = not s.predicate(x)
+            except Exception as e:
+                s.failed = True
+                out.on_error(e)
+                return
+        if s.running:
+            out.on_next(x)
+
+    @staticmethod
+    def ref(h, t, predicate):
+        out = []
+        running = False
+        for x in h:
+            if not running:
+                try:
+                    running = not predicate(x)
+                except Exception as e:
+                    return out, ("error", e)
+            if running:
+                out.append(x)
+        return out, t
+
+
+class distinct_until_changed:
+    def init(s):
+        s.has = False
+        s.cur = None
+        s.failed = False
+
+    def done(s):
+        return s.failed
+
+    def on_next(s, out, x):
+        try:
+            key = s.key_mapper(x) if s.key_mapper else x
+        except Exception as e:
+            s.failed = True
+            out.on_error(e)
+            return
+        same = False
+        if s.has:
+            try:
+                same = s.comparer(s.cur, key) if s.comparer else s.cur == key
+            except Exception as e:
+                s.failed = True
+                out.on_error(e)
+                return
+        if not s.has or not same:
+            s.has = True
+            s.cur = key
+            out.on_next(x)
+
+    @staticmethod
+    def ref(h, t, key_mapper, comparer):
+        out = []
+        last = []  # key of the last EMITTED element
+        for x in h:
+            try:
+                k = key_mapper(x) if key_mapper else x
+                if last and (comparer(last[0], k) if comparer else last[0] == k):
+                    continue
+            except Exception as e:
+                return out, ("error", e)
+            last = [k]
+            out.append(x)
+        return out, t
+
+
+class pairwise:
+    def init(s):
+        s.has = False
+        s.prev = None
+
+    def on_next(s, out, x):
+        if s.has:
+            out.on_next((s.prev, x))
+        s.has = True
+        s.prev = x
+
+    @staticmethod
+    def ref(h, t):
+        return list(zip(h, h[1:])), t
+
+
+class default_if_empty:
+    def init(s):
+        s.found = False
+
+    def on_next(s, out, x):
+        s.found = True
+        out.on_next(x)
+
+    def on_completed(s, out):
+        if not s.found:
+            out.on_next(s.default_value)
+        out.on_completed()
+
+    @staticmethod
+    def ref(h, t, default_value):
+        if t == "completed" and not h:
+            return [default_value], t
+        return list(h), t
+
+
+class ignore_elements:
+    def init(s):
+        pass
+
+    def on_next(s, out, x):
+        pass
+
+    @staticmethod
+    def ref(h, t):
+        return [], t
+
+
+class take_last_buffer:
+    def init(s):
+        s.q = []
+
+    def on_next(s, out, x):
+        s.q.append(x)
+        if len(s.q) > s.count:
+            s.q.pop(0)
+
+    def on_completed(s, out):
+        out.on_next(list(s.q))
+        out.on_completed()
+
+    @staticmethod
+    def ref(h, t, count):
+        if t == "completed":
+            return [h[-count:] if count > 0 else []], t
+        return [], t
+
+
+class element_at_or_default:
+    def init(s):
+        s.n = 0
+        s.found = False
+
+    def done(s):
+        return s.found
+
+    def on_next(s, out, x):
+        if s.n == s.index:
+            s.found = True
+            out.on_next(x)
+            out.on_completed()
+        s.n += 1
+
+    def on_completed(s, out):
+        if s.has_default:
+            out.on_next(s.default_value)
+            out.on_completed()
+        else:
+            out.on_error(ArgumentOutOfRangeException())
+
+    @staticmethod
+    def ref(h, t, index, has_default, default_value):
+        if len(h) > index:
+            return [h[index]], "completed"
+        if t == "completed":
+            if has_default:
+                return [default_value], t
+            return [], ("error", ArgumentOutOfRangeException())
+        return [], t
+
+
+class find_value:
+    def init(s):
+        s.i = 0
+        s.found = False
+
+    def done(s):
+        return s.found
+
+    def on_next(s, out, x):
+        try:
+            hit = s.predicate(x, s.i, s.source)
+        except Exception as e:
+            s.found = True
+            out.on_error(e)
+            return
+        if hit:
+            s.found = True
+            out.on_next(s.i if s.yield_index else x)
+            out.on_completed()
+        else:
+            s.i += 1
+
+    def on_completed(s, out):
+        out.on_next(-1 if s.yield_index else None)
+        out.on_completed()
+
+    @staticmethod
+    def ref(h, t, predicate, yield_index):
+        for i, x in enumerate(h):
+            try:
+                if predicate(x, i, None):
+                    return [i if yield_index else x], "completed"
+            except Exception as e:
+                return [], ("error", e)
+        if t == "completed":
+            return [-1 if yield_index else None], t
+        return [], t
+
+
+class materialize:
+    def init(s):
+        pass
+
+    def on_next(s, out, x):
+        out.on_next(OnNext(x))
+
+    def on_error(s, out, e):
+        out.on_next(OnError(e))
+        out.on_completed()
+
+    def on_completed(s, out):
+        out.on_next(OnCompleted())
+        out.on_completed()
+
+    @staticmethod
+    def ref(h, t):
+        out = [OnNext(x) for x in h]
+        if t == "completed":
+            return out + [OnCompleted()], "completed"
+        if isinstance(t, tuple):
+            return out + [OnError(t[1])], "completed"
+        return out, t
+
+
+class dematerialize:
+    """input elements are Notification objects"""
+
+    def init(s):
+        s.ended = False
+
+    def done(s):
+        return s.ended
+
+    def on_next(s, out, x):
+        if x.kind == "N":
+            out.on_next(x.value)
+        elif x.kind == "E":
+            s.ended = True
+            out.on_error(x.exception)
+        else:
+            s.ended = True
+            out.on_completed()
+
+    @staticmethod
+    def ref(h, t):
+        out = []
+        for n in h:
+            if n.kind == "N":
+                out.append(n.value)
+            elif n.kind == "E":
+                return out, ("error", n.exception)
+            else:
+                return out, "completed"
         return out, t
